@@ -51,10 +51,11 @@ def new_run():
          "a case whose hypothesis run exceeds 3 s (quick) / 8 s (thorough) of CPU "
          "time is cut off at the next example attempt; what was drawn until then "
          "is judged",
-         "strings with trailing NUL characters are not judged: numpy '<U' arrays, "
-         "which hypothesis fills, treat trailing NULs as padding (generated string "
-         "witnesses avoid backslash-zero; one directed case visits the region and "
-         "is counted as undecided)"])
+         "strings with NUL characters are not judged where the NUL decides: numpy "
+         "'<U' arrays, which hypothesis fills, treat trailing NULs as padding and "
+         "pandas' uniqueness test compares strings up to the first NUL (generated "
+         "string witnesses avoid backslash-zero; one directed case visits the "
+         "region; such rejections are counted as undecided)"])
 
 
 # --------------------------------------------------------------------------
@@ -352,6 +353,7 @@ def _pyval(v, cls):
     return v
 
 
+NOT_JUDGED_NUL = "numpy-str-array-drops-trailing-NUL-characters"
 HAS_STRATEGY = {"eq", "ne", "gt", "ge", "lt", "le", "in_range", "isin", "notin",
                 "str_matches", "str_contains", "str_startswith", "str_endswith",
                 "str_length", "c_strat"}
@@ -373,6 +375,14 @@ def classify(case, fl, d):
         # any other index component below
     if where == "frame" and reason == "DUPLICATES" and _joint_unique_null_duplicates(case, d):
         return "null-mask-after-unique-emits-duplicate-nulls"
+    if where == "frame" and reason == "DUPLICATES" and case.get("df_unique"):
+        try:
+            strs = [d[c] for c in case["df_unique"] if any(
+                f["name"] == c and f["cls"] == "str" for f in case["fields"])]
+            if any(_nul_explains_duplicates(x) for x in strs):
+                return NOT_JUDGED_NUL
+        except Exception:               # noqa: BLE001
+            pass
     if f is None:
         if (where == "frame" and reason == "WRONG_DATATYPE" and case.get("df_dtype")):
             col = fl.get("column")
@@ -398,6 +408,8 @@ def classify(case, fl, d):
             if (f["unique"] and f["nullable"] and x is not None and not x.is_unique
                     and int(x.isna().sum()) >= 2 and x.dropna().is_unique):
                 return "null-mask-after-unique-emits-duplicate-nulls"
+        if cls == "str" and any(x is not None and _nul_explains_duplicates(x) for x in datas):
+            return NOT_JUDGED_NUL
         return None
 
     if reason != "DATAFRAME_CHECK" or fl["check_index"] is None:
@@ -511,6 +523,24 @@ def classify(case, fl, d):
         if all(with_nuls(v) for v in vals):
             return "numpy-str-array-drops-trailing-NUL-characters"
     return None
+
+
+def _nul_explains_duplicates(x):
+    """the values pandas calls duplicates are strings with NUL characters:
+    numpy '<U' storage drops trailing NULs and pandas' string hash table
+    compares C strings (everything after the first NUL is ignored), so values
+    hypothesis drew as distinct come out as duplicates - an artefact of
+    numpy / pandas, not judged"""
+    try:
+        vals = [v for v in x[x.duplicated(keep=False)].tolist() if isinstance(v, str)]
+        if len(vals) < 2:
+            return False
+        groups = {}
+        for v in vals:
+            groups.setdefault(v.split("\x00")[0], []).append(v)
+        return all(any("\x00" in v for v in g) for g in groups.values())
+    except Exception:                   # noqa: BLE001
+        return False
 
 
 def _joint_unique_null_duplicates(case, d):
@@ -739,9 +769,6 @@ def one_case(run, case, hseed, n, verbose=False, limit=None, cold=False):
     run.count(P + ("cases_all_draws_accepted" if not bad_case else "cases_with_rejected_draw"))
 
 
-NOT_JUDGED_NUL = "numpy-str-array-drops-trailing-NUL-characters"
-
-
 def report(run, kind, case, brief, d, verdict, info, verbose):
     """one violation per mechanism seen in this rejected draw; -> number of
     violations recorded (0: the rejection lies in a region that is not judged)"""
@@ -757,9 +784,12 @@ def report(run, kind, case, brief, d, verdict, info, verbose):
         per.setdefault(classify(case, fl, d), []).append(fl)
     if NOT_JUDGED_NUL in per:
         # numpy '<U' arrays (the container hypothesis fills) treat trailing NUL
-        # characters as padding; a value that only fails because its trailing
-        # NULs are gone is an artefact of numpy, not judged
-        run.count("undecided:numpy_str_array_drops_trailing_NUL(not judged)", len(per.pop(NOT_JUDGED_NUL)))
+        # characters as padding and pandas' string hash table stops at the
+        # first NUL; a value that only fails because its trailing NULs are
+        # gone, or strings that are only "duplicates" in that reading, are
+        # artefacts of numpy / pandas, not judged
+        run.count("undecided:strings_with_NUL_characters(numpy/pandas artefact, not judged)",
+                  len(per.pop(NOT_JUDGED_NUL)))
     for mech, fls in per.items():
         run.violation(kind, dict(brief, draw=show(d), failures=fls), mech)
     if verbose:
